@@ -56,10 +56,14 @@ func lockCall(e ast.Expr) *ast.CallExpr {
 	}
 	var name string
 	switch s.Sel.Name {
-	case "Lock", "RLock":
+	case "Lock":
 		name = "Lock"
-	case "Unlock", "RUnlock":
+	case "RLock":
+		name = "RLock"
+	case "Unlock":
 		name = "Unlock"
+	case "RUnlock":
+		name = "RUnlock"
 	default:
 		return nil
 	}
